@@ -11,7 +11,7 @@ variable {Inv : Dev → Prop} {F G : Nat → DirStream} {N : Nat} {src room : Na
 /-- the part of `write_entry` from `find_free_entries` on, for the list `L` of long-name slots (`[]` for `.`/`..`) -/
 theorem writeEntry_core_fo (IO : InvOK Inv) (W : WFam Inv F G N src room) (WG : WFam Inv G G N src room)
     (O : WOps Inv F G N src room Extra DropPost) {P : DirStream → Prop} {Q : Dev → Prop} (hFK : FaultKeepsQ Inv Q P)
-    (hPF : ∀ o, o + 32 ≤ 32 * N → P (F o)) (hPG : ∀ o, o + 32 ≤ 32 * N → P (G o))
+    (hPF : ∀ q, q + 1 ≤ N → P (F (32 * q))) (hPG : ∀ q, q + 1 ≤ N → P (G (32 * q)))
     (hQ0 : ∀ dd o, Q dd → o ≤ 32 * N → ∃ d1, run ((F o).seek (.cur 0)) dd = (.ok (o, F o), d1))
     (L : List (List Nat)) (hQ1 : L ≠ [] → ∀ dd, Q dd → Inv dd) (hS : L ≠ [] → SeekG Inv G N) (hL : ∀ sl ∈ L, sl.length = 32 ∧ (∀ b ∈ sl, b < 256) ∧ (deserialize sl).serialize = sl)
     (raw : DirFileEntryData) (hraw : raw.WF) (units : List Nat) (d : Dev) (hd : d.fault = none) (hinv : Inv d.disarm)
@@ -137,7 +137,7 @@ end generic
 
 /-- what a writable directory must satisfy besides `WView` for the fault analysis -/
 structure FaultOK {d0 : Dev} {st : DirStream} (V : WView d0 st) : Prop where
-  keeps : FaultKeeps V.Inv (fun s => ∃ o, o + 32 ≤ 32 * V.N ∧ (s = V.F o ∨ s = V.G o))
+  keeps : FaultKeeps V.Inv (fun s => ∃ q, q + 1 ≤ V.N ∧ (s = V.F (32 * q) ∨ s = V.G (32 * q)))
   seekG : SeekG V.Inv V.G V.N
 
 namespace WView
@@ -167,8 +167,8 @@ theorem writeEntry_fo (V : WView d.disarm st) (hd : d.fault = none) (hOK : Fault
       exact (congrArg Prod.snd h1).symm
     subst this
     have hchk := lfnChecksum_lt raw.name
-    refine writeEntry_core_fo V.io V.w V.wg V.ops hOK.keeps (fun o ho => ⟨o, ho, Or.inl rfl⟩)
-      (fun o ho => ⟨o, ho, Or.inr rfl⟩)
+    refine writeEntry_core_fo V.io V.w V.wg V.ops hOK.keeps (fun q hq => ⟨q, hq, Or.inl rfl⟩)
+      (fun q hq => ⟨q, hq, Or.inr rfl⟩)
       (fun dd o hq ho => by obtain ⟨d1, h1, _⟩ := V.ops.seekCurF dd hq o ho; exact ⟨d1, h1⟩)
       (lfnGenerate (Names.encodeUtf16 name.toList) (lfnChecksum raw.name)) (fun _ dd hq => hq) (fun _ => hOK.seekG)
       (fun sl hsl => lfnGenerate_slot _ _ hchk sl hsl) raw hraw (Names.encodeUtf16 name.toList) d1 hd V.here
